@@ -62,7 +62,7 @@ def showCluster {d} (c : Cluster d) : String :=
 def mk? (t v ns sites : String) : Option (Σ d, Except String (Cluster d)) := do
   let d := dimOfSites sites
   let l ← sites? d sites
-  some ⟨d, Cluster.make l (t = "1") (v = "1") (ns = "1")⟩
+  some ⟨d, Cluster.make Generated.C36.tsPairMarked l (t = "1") (v = "1") (ns = "1")⟩
 
 def imap? (s : String) : Option (List (List Nat)) :=
   if s = "-" then some [] else (s.splitOn "|").mapM parseNatList?
